@@ -8,7 +8,7 @@ use serde::de::DeserializeOwned;
 use serde_json::Value;
 use std::collections::HashMap;
 use std::io::ErrorKind;
-use std::sync::atomic::{AtomicU64, Ordering};
+use std::sync::atomic::{AtomicBool, AtomicU64, Ordering};
 use std::sync::{Arc, Mutex as StdMutex};
 use tokio::net::TcpStream;
 use tokio::sync::mpsc;
@@ -41,6 +41,11 @@ struct WebSocketClientInner {
     /// because it is repe's own guard, checked on every send.
     limits: crate::WebSocketLimits,
     pending: StdMutex<PendingRequests>,
+    /// Set by the response loop, under the `pending` lock and together with the
+    /// drain, once the socket has failed; read under the same lock by
+    /// `PendingRequestGuard::register`, which then refuses. A call therefore
+    /// either registered before the drain (and is failed by it) or is refused.
+    failed: AtomicBool,
     next_id: AtomicU64,
     /// Unbounded sender for inbound notify messages (any header whose
     /// `notify` flag is non-zero). `None` while no subscriber is
@@ -85,6 +90,9 @@ impl PendingRequestGuard {
     ) -> Result<Self, RepeError> {
         {
             let mut pending = lock_pending_map(&inner.pending);
+            if inner.failed.load(Ordering::Relaxed) {
+                return Err(websocket_closed_error());
+            }
             if pending.contains_key(&request_id) {
                 return Err(duplicate_request_id_error(request_id));
             }
@@ -157,6 +165,7 @@ impl WebSocketClient {
             writer: Mutex::new(writer),
             limits,
             pending: StdMutex::new(HashMap::new()),
+            failed: AtomicBool::new(false),
             next_id: AtomicU64::new(1),
             notify_tx: StdMutex::new(None),
         });
@@ -840,16 +849,22 @@ async fn fail_all_pending(inner: &std::sync::Weak<WebSocketClientInner>, err: Re
     // The subscriber should not wait on it to learn the connection is gone.
     take_notify_sender(&inner_ref);
 
-    let _ = close_writer(&inner_ref).await;
-
+    // Request waiters next, still ahead of `close_writer`, which needs the writer
+    // mutex: a caller stalled in `write_request` (the peer stopped reading)
+    // holds it for as long as the stall lasts. Marking the connection failed in
+    // the same critical section as the drain is what makes that order safe: a
+    // call that registers afterwards is refused instead of waiting for a reply.
     let waiters = {
         let mut pending = lock_pending_map(&inner_ref.pending);
+        inner_ref.failed.store(true, Ordering::Relaxed);
         pending.drain().collect::<Vec<_>>()
     };
 
     for (request_id, sender) in waiters {
         let _ = sender.send(Err(clone_fatal_error_for_waiter(&err, request_id)));
     }
+
+    let _ = close_writer(&inner_ref).await;
 }
 
 /// Empty the notify slot, dropping the sender *after* the mutex guard is
